@@ -33,7 +33,8 @@ def gen_config(rng, thorough, cls=None):
             txcount = 0
     procs = rng.choice([1, 2, 4, 16])
     dur = rng.choice([17, 19, 22] if not thorough else [17, 22, 25, 31])
-    if cls == "blocked":
+    if cls in ("blocked", "single"):
+        # long enough to tell a block every 10 s from one every 5 s (a lone validator is woken by its timer only)
         dur = 32 if not thorough else rng.choice([32, 41])
     return {"count": count, "watchers": watchers, "blocked": blocked, "txblock": txblock, "txcount": txcount, "gomaxprocs": procs, "duration": dur}
 
